@@ -52,10 +52,10 @@ pub fn cases(ctx: &Ctx) -> Vec<Case> {
     let mut rng = Rng::derive(ctx.seed, &[0xC12]);
     let mut v = Vec::new();
     let n = match (k.is_prod(), ctx.quick()) {
-        (false, true) => 2000,
-        (false, false) => 60000,
-        (true, true) => 160,
-        (true, false) => 4000,
+        (false, true) => 8000,
+        (false, false) => 120000,
+        (true, true) => 1200,
+        (true, false) => 20000,
     };
     let mut sizes = crate::gen::small_sizes();
     sizes.extend([Sz::new(0, 1, -17), Sz::new(0, 1, 0), Sz::new(0, 2, 5)]);
@@ -83,8 +83,8 @@ pub fn cases(ctx: &Ctx) -> Vec<Case> {
     let m = match (k.is_prod(), ctx.quick()) {
         (false, true) => 300,
         (false, false) => 5000,
-        (true, true) => 60,
-        (true, false) => 1500,
+        (true, true) => 480,
+        (true, false) => 8000,
     };
     for i in 0..m {
         let layers = LAYER_COMBOS[i % 4];
